@@ -335,7 +335,7 @@ PROPS['C13'] = dict(
     level_text='Bounded symbolic model checking of the compiled code: the window algebra and the index conversions are decided for every 64-bit index and window (not a sample), which is where the interesting inputs are single points of a 2^64 space (index+1 wrapping to 0). Union/intersection are proved equal to hull/meet-with-empty-normalisation, commutative (reversed call), idempotent (aliased call), associative (two chained real calls each way); equality, accessors, size/interval count and iteration bounds are proved to describe the same window; checked accessors must throw for every index outside.',
     level_note='64-bit indices exact; grid size abstract up to 2^60 where data is not read, <=3 (4) points otherwise; trusted: clang -O1 lowering, irsym executor (differentially validated), stubs, z3.')
 
-_C18_QUICK = ['chk_eval1', 'chk_eval', 'chk_iszero', 'chk_sfront', 'chk_sback', 'chk_scopy', 'chk_overlap', 'chk_sequal', 'chk_applyX1', 'chk_applyX3', 'chk_applyDx1', 'chk_add_shared', 'chk_add_distinct', 'chk_mul', 'chk_splop', 'chk_bilin', 'chk_scalarprod', 'chk_linform', 'chk_scale', 'chk_lincomb', 'chk_generate1', 'chk_module_scan', 'chk_eval1_n11', 'chk_iszero_n11', 'chk_linform_n11', 'chk_sequal_n10']
+_C18_QUICK = ['chk_eval1', 'chk_eval', 'chk_iszero', 'chk_sfront', 'chk_sback', 'chk_scopy', 'chk_overlap', 'chk_sequal', 'chk_applyX1', 'chk_applyX3', 'chk_applyDx1', 'chk_add_shared', 'chk_add_distinct', 'chk_mul', 'chk_splop', 'chk_bilin', 'chk_scalarprod', 'chk_linform', 'chk_scale', 'chk_lincomb', 'chk_classscalar', 'chk_generate1', 'chk_module_scan', 'chk_eval1_n11', 'chk_iszero_n11', 'chk_linform_n11', 'chk_sequal_n10']
 PROPS['C18'] = dict(
     engine='B', technique='non-interference by symbolic execution of the compiled IR: every store/atomic/global access of each const operation is logged per path and checked against the ownership of the memory it hits; findings replayed with 4 threads under ThreadSanitizer',
     irsym=[dict(module='c18', tsan_driver='tsan_driver.cpp', params=dict(quick=dict(nmax=3, gen_sizes=[2]), thorough=dict(nmax=4, gen_sizes=[2, 3])), select=dict(quick=_C18_QUICK, thorough=None)),
